@@ -72,6 +72,23 @@ class GramRec:
         self.f[name] = v
 
 
+class VCopy:
+    """set(self.V): a fresh set object with the same members (spawn's contract: V is copied, not aliased)."""
+
+    def __init__(self, base):
+        self.base = base
+        self.extra = []
+
+    def __pyvc_contains__(self, interp, x):
+        cs = [self.base.mem(I.zexpr(x))] + [I.zexpr(x) == I.zexpr(e) for e in self.extra]
+        return I.Z(z3.Or(*cs)) if len(cs) > 1 else I.Z(cs[0])
+
+    def __pyvc_getattr__(self, interp, name, node):
+        if name == "add":
+            return I.Native("V.add", lambda it, a, k: self.extra.append(a[0]))
+        raise I.OutOfSubset("V." + name)
+
+
 class GramRecNoFork(GramRec):
     fork_on_zero = False
 
@@ -82,7 +99,7 @@ class GramSelf:
 
     def __init__(self, path, name="G", wsort=None, extra_methods=None):
         self.name = name
-        self.wsort = wsort or W
+        self.wsort = W if wsort is None else wsort
         self.path = path
         self.S = S.sym(f"S_{name}")
         self.V = S.SymSet(f"V_{name}")
@@ -113,6 +130,8 @@ class GramSelf:
         self.path.assume(z3.Not(self.V.mem(head.e)))
         if self.wsort == W:
             self.path.assume(w.e != w0)
+        else:
+            self.path.assume(w.e != 0)
         r = S.RuleVal(w, head, body)
         self.generic.append(r)
         return r
@@ -140,7 +159,7 @@ class GramSelf:
         if name == "spawn":
             def spawn(it, args, kw):
                 g = self.rec_class(f"new{len(self.spawned)}", kw.get("S") if kw.get("S") is not None else self.S,
-                            kw.get("V") if kw.get("V") is not None else self.V,
+                            kw.get("V") if kw.get("V") is not None else VCopy(self.V),
                             kw.get("R") if kw.get("R") is not None else self.R)
                 self.spawned.append(g)
                 return g
